@@ -24,6 +24,17 @@ SEEDED = os.path.join(VERIF, "seeded")
 ALL5 = [PL, BTF, BTP, TMF, TMP]
 
 
+_DIGEST: List[Optional[str]] = [None]
+
+
+def _current_digest() -> str:
+    if _DIGEST[0] is None:
+        from ..rules.game import _checker_digest
+
+        _DIGEST[0] = _checker_digest()
+    return _DIGEST[0]
+
+
 def seeded_variants() -> List[Dict[str, Any]]:
     out = []
     if not os.path.isdir(SEEDED):
@@ -35,6 +46,10 @@ def seeded_variants() -> List[Dict[str, Any]]:
             continue
         with open(meta_p) as fh:
             meta = json.load(fh)
+        if meta.get("checker_digest") != _current_digest():
+            # the recorded outcomes are those of another version of the checks: kept as documentation (DESIGN tables), not as
+            # expectations of the self-test (tools/reeval_seeded.py refreshes a meta and stamps it with the analyser's digest)
+            continue
         out.append(dict(id=f"seeded/{d}", patch=patch_p, fire=list(meta.get("detected_by", [])), silent=list(meta.get("silent_for", [])), missed=list(meta.get("missed_by", []))))
     return out
 
